@@ -19,7 +19,7 @@ import z3
 
 from . import core, sums, source
 from .core import ObjV, SymList, MapSeq, LArr, LArr2, HeapArr1, HeapArr2, Unsupported, CheckerError, is_z3, to_z3num, to_real, fresh, conj, disj, neg, ite, NONE
-from .interp import ImpliesV, Interp, Obligation, QFact, ForallV, ExistsV, explore, Chooser, _Return, _Raise, _Continue, Infeasible, Aborted, concrete_int, is_arr
+from .interp import ImpliesV, Interp, Obligation, QFact, ForallV, ExistsV, explore, Chooser, _Return, _Raise, _Continue, _Break, Infeasible, Aborted, concrete_int, is_arr
 
 
 TrackingHeap = core.Heap
@@ -416,6 +416,7 @@ def verify_function(qualname, contract, schema, timeout_ms=10000, contracts=None
         for gname, gkind in contract.get("ghost_params", {}).items():
             env[gname] = make_param(it, gname, gkind)
         if "make_env" in contract:
+            it.pre_env = env  # the parameters and ghost parameters made so far, for make_env to build on
             env.update(contract["make_env"](it))  # contract-built pre-state (objects of concrete shape with symbolic contents)
         it.expr_stubs = contract.get("stubs")
         it.call_stubs = contract.get("call_stubs")
@@ -468,9 +469,15 @@ def verify_function(qualname, contract, schema, timeout_ms=10000, contracts=None
             it.exec_block(body_stmts, body_env)
             out.kind = "return"
             out.value = None
+            body_env["LOOP_EXIT"] = "end"
         except _Continue:
             out.kind = "return"  # fragment = loop body: `continue` ends the iteration normally
             out.value = None
+            body_env["LOOP_EXIT"] = "continue"
+        except _Break:
+            out.kind = "return"  # fragment = loop body: `break` ends the iteration AND the loop: clauses can tell through LOOP_EXIT
+            out.value = None
+            body_env["LOOP_EXIT"] = "break"
         except _Return as r:
             out.kind = "return"
             out.value = r.value
@@ -568,8 +575,11 @@ def verify_function(qualname, contract, schema, timeout_ms=10000, contracts=None
                     frame_obligations(it, contract["modifies"], old_heap, old_env, pid)
                 except Unsupported as u:
                     rep.unsupported.append("frame/%s: %s" % (pid, u))
-            if "raises_only_if" in contract:
-                pass
+            # a contract with no postcondition at all whose exceptions are unconditional (`raises={"X": "True"}, ensures=[]`) describes a REFUSAL:
+            # a path that returns normally accepted what the contract says is refused
+            rs = contract.get("raises") or {}
+            if contract.get("ensures") == [] and rs and all(cnd is True or cnd == "True" for cnd in rs.values()) and "modifies" not in contract:
+                it.oblige("raises", "must-raise:%s/%s" % ("|".join(sorted(rs)), pid), False, None, "the contract says this input is refused with %s, but this path returns normally" % " / ".join(sorted(rs)))
         else:
             allowed = contract.get("raises", {})
             if out.exc not in allowed:
